@@ -64,6 +64,19 @@ def capture (p : P) (m : Match) : Outcome (Option P) :=
   if p.len > u16Max then .ok none                    -- resource.rs: the guard added by the fix
   else (captureUnguarded p m).map some
 
+/-- a *static* pattern (e.g. a scope prefix) matched `n` bytes of `unprocessed`: no segment is
+stored, only `path.skip(matched_len as u16)` runs (resource.rs:686, 754; path.rs:146) -/
+def staticStep (p : P) (n : Nat) : Outcome P := do
+  let sk ← uadd u16Max "path.rs:147 self.skip += n" p.skip (asU16 n)
+  .ok ⟨p.len, sk, p.segs⟩
+
+/-- a *wrong* variant of the guard — testing the unprocessed tail instead of the whole path —
+kept to show (witness in `Props/C19.lean`) why the guard must look at the full length: below a
+consumed prefix `skip + end` can exceed `u16::MAX` although the tail fits -/
+def captureTailGuard (p : P) (m : Match) : Outcome (Option P) :=
+  if p.len - p.unprocessedStart > u16Max then .ok none
+  else (captureUnguarded p m).map some
+
 /-- `Path::get` / `PathIter::next`: `&path[(start as usize)..(end as usize)]` -/
 def getSeg (p : P) (i : Nat) : Outcome (Option Nat) :=
   match p.segs[i]? with
@@ -78,6 +91,20 @@ def iterStep (len : Nat) (acc : Outcome Nat) (se : Nat × Nat) : Outcome Nat :=
 
 /-- all segments readable? (`iter()`): total length of the values -/
 def iterAll (p : P) : Outcome Nat := p.segs.foldl (iterStep p.len) (.ok 0)
+
+/-- invariant of a `Path` of *any* length under static and dynamic steps: `skip` is a real
+`u16` inside the path and every stored segment lies inside the path (for a path longer than
+`u16::MAX` no segment is ever stored, because the guard tests the FULL path length) -/
+def Inv2 (p : P) : Prop :=
+  p.skip ≤ p.len ∧ p.skip ≤ u16Max ∧ (p.len > u16Max → p.segs = []) ∧
+    ∀ se ∈ p.segs, se.1 ≤ se.2 ∧ se.2 ≤ p.len
+
+/-- one routing step: a static pattern consuming `n` bytes, or a dynamic pattern with its regex
+result -/
+inductive StepKind where
+  | static_ (n : Nat)
+  | dynamic (m : Match)
+  deriving Repr
 
 /-- invariant of a `Path` built by captures only -/
 def Inv (p : P) : Prop :=
@@ -97,17 +124,27 @@ def matchAt : List Nat → Nat → Nat → Option Match
 
 def totalLen (lens : List Nat) : Nat := lens.foldl (fun a l => a + 1 + l) 0
 
+/-- consume the static prefixes (`ResourceDef::prefix("/ppp")`, lengths `pre`) one after the other;
+each matches because the path was built from them; returns the path and the number of matches -/
+def applyStatics : List Nat → P → Nat → Outcome (P × Nat)
+  | [], p, n => .ok (p, n)
+  | s :: ss, p, n =>
+    match staticStep p s with
+    | .panic e => .panic e
+    | .err e => .err e
+    | .ok p' => applyStatics ss p' (n + 1)
+
 /-- apply up to `k` prefix patterns in turn; returns the path and the number of matches -/
-def applyK (lens : List Nat) : Nat → P → Nat → Outcome (P × Nat)
+def applyK (lens : List Nat) (base : Nat) : Nat → P → Nat → Outcome (P × Nat)
   | 0, p, n => .ok (p, n)
   | k + 1, p, n =>
-    match matchAt lens 0 p.unprocessedStart with
+    match matchAt lens base p.unprocessedStart with
     | none => .ok (p, n)
     | some m =>
       match capture p m with
       | .panic s => .panic s
       | .err e => .err e
       | .ok none => .ok (p, n)
-      | .ok (some p') => applyK lens k p' (n + 1)
+      | .ok (some p') => applyK lens base k p' (n + 1)
 
 end ActixModel.Panic.Path
